@@ -78,6 +78,21 @@ func buildVersTable(p *Program) *versTable {
 		vt.problems = append(vt.problems, "(*trie.SlimTrie).Unmarshal not found")
 		return vt
 	}
+	if ve.noGate {
+		// no compatibility gate at all: go on with the versions the property names plus the current one,
+		// so that the probe rules can show which incompatible versions are accepted (C07.compat reports
+		// the missing gate itself)
+		vt.compatVer = append([]string{}, historical...)
+		cur, ok := constStringOfFunc(p.Method(p.Trie, "Slim", "GetVersion"))
+		if ok {
+			vt.current = cur
+			vt.compatVer = append(vt.compatVer, cur)
+			for _, v := range vt.compatVer {
+				ve.compat = append(ve.compat, "=="+v)
+			}
+		}
+		return vt
+	}
 	if !ve.compatOK {
 		vt.problems = append(vt.problems, "the compatible-version list handed to vers.IsCompatible under Unmarshal is not one constant []string (literal, or the single literal a function returns)")
 		return vt
@@ -447,6 +462,9 @@ func checkC07(p *Program, r *Report) {
 	}
 	un := ve.un
 	r.Func(shortFn(un))
+	if ve.noGate {
+		r.Bad("compatibility gate", p.Pos(un.Pos()), "nothing under Unmarshal calls vers.IsCompatible on the header's version: which versions load is left to the layout dispatch, whose conditions are wider than the set of released layouts (and vers.Check does not reject unparsable strings)")
+	}
 	curV, curErr := semver.Parse(vt.current)
 	for i, spec := range ve.compat {
 		v, exact := specVersion(spec)
